@@ -36,10 +36,15 @@ def run(ck):
     rule_X(ck, lib)
     rule_W(ck, lib)
     count = 400 if ck.tier == "thorough" else 40
-    fs, specs = witness.build(ck, ck.seed, count)
+    fs, specs, failures = witness.build(ck, ck.seed, count)
     wit = fs.crate("wit.rlib")
+    for (sp, msg) in failures:
+        if sp is None:
+            ck.bad("C01-T", "witness:build", "the witness crate does not compile against the current tree:\n" + msg)
+        else:
+            ck.bad("C01-T", "witness:%s:rejected" % sp["mod"], "collision-free declaration set %s (flags %s) is rejected by the current tree: %s"
+                   % ([d["cmd"] for d in sp["decls"]], sp["flags"], msg))
     if fs.rc != 0 or wit is None:
-        ck.bad("C01-T", "witness:build", "the witness interfaces do not compile against the current tree:\n" + fs.log[-2500:])
         return
     enums = ctx.enums_of(wit)
     programs = 0
